@@ -13,6 +13,8 @@ inductive KStmt
   | compressedFromBytes | ifOkSetSize | retMsgErr                                                    -- NewCompressedPackedForwardMessage
   | poolGet | reset | deferPut | writeOrErr | fromCopyOfBuffer | setGzipOption                       -- NewCompressed…FromBytes
   | gzWrite | gzClose | retErr | ifFirstUseInit | bufReset | gzReset | retBuffer                     -- GzipCompressor
+  | buildMessageNowUnix | buildMessageExtNow | retMsg | retNowUTC | buildForward | retPfm            -- NewMessage, NewMessageExt, EventTimeNow, NewForwardMessage
+  | ifEmptyWriteNil | writeRaw | retGetChunk                                                         -- RawMessage
   | unknown (src : String)
 deriving DecidableEq, Repr
 
@@ -96,5 +98,30 @@ def runNewCompressed (cfb : Bytes → Bytes → Option (Option Packed)) (tag : B
     | _, _ => none
   | .retMsgErr :: _, s => s.res
   | _, _ => none
+
+/-! ### `NewMessage`, `NewMessageExt` (with `EventTimeNow`), `NewForwardMessage`: `now` is the clock reading; no options but the size -/
+
+/-- `(tag, timestamp, record)`, options nil -/
+def runNewMessage (now : Instant) (tag : Bytes) (r : GoVal) : List KStmt → Option (Bytes × Int × GoVal)
+  | [.buildMessageNowUnix, .retMsg] => some (tag, now.sec, r)            -- time.Now().UTC().Unix()
+  | _ => none
+
+def runEventTimeNow (now : Instant) : List KStmt → Option Instant
+  | [.retNowUTC] => some now                                              -- EventTime{Time: time.Now().UTC()}
+  | _ => none
+
+def runNewMessageExt (etNow : Option Instant) (tag : Bytes) (r : GoVal) : List KStmt → Option (Bytes × Instant × GoVal)
+  | [.buildMessageExtNow, .retMsg] => etNow.map fun t => (tag, t, r)
+  | _ => none
+
+/-- `(tag, entries, options)` -/
+def runNewForward (tag : Bytes) (es : List (Instant × GoVal)) : List KStmt → Option (Bytes × List (Instant × GoVal) × Option Options)
+  | [.lenEntries, .buildForward, .setSizeOption, .retPfm] => some (tag, es, some { size := some es.length })
+  | _ => none
+
+/-! ### `RawMessage.EncodeMsg`: the bytes handed to the writer; `RawMessage.Chunk` is `GetChunk` of the bytes -/
+def runRawEncode (rm : Bytes) : List KStmt → Option Bytes
+  | [.ifEmptyWriteNil, .writeRaw, .retErr] => some (if rm.isEmpty then appendNil else rm)
+  | _ => none
 
 end FV.Sk.Ct
